@@ -101,7 +101,7 @@ package relationtuple
 //@ unfold wftree(t *Tree) bool = (t.Subject != nil ==> wfsubject(t.Subject)) && (forall i in 0..len(t.Children) :: wftree(t.Children[i]))
 
 //@ func (*Mapper).ToTree
-//@   props C16
+//@   props C09 C16
 //@   ensures[C13] error-class: err != nil ==> clienterr(err)
 //@   requires m != nil && ctx != nil && m.D != nil && wftree(tree)
 //@   modifies nothing
